@@ -522,6 +522,15 @@ class Hist(object):
                         want = cols[0] if len(names) == 1 else tuple(cols)
                         if res != want or type(res) is not type(want):
                             fail("op %d: select%r on %r returned %r, the chronological columns are %r" % (j, tuple(names), path, res, want))
+                # the returned columns belong to the caller: scramble them in place (after they have been compared), as a
+                # caller that sorts / pops / extends its column does; every later select must still return the logbook's
+                # columns (seeded change C18-r8m2 hands out its per-name cache entry itself)
+                for col in ([res] if isinstance(res, list) else list(res) if isinstance(res, tuple) else []):
+                    if isinstance(col, list):
+                        col.reverse()
+                        col.append("caller-owned")
+                        if len(col) > 2:
+                            del col[0]
         elif k in ("stream", "str"):
             toks.append("S" if k == "stream" else "P")
             text = log.stream if k == "stream" else str(log)
@@ -1826,6 +1835,9 @@ def generate(tier, rng, mult):
     yield {"k": "hist", "ops": [["rec", a], ["rec", b], ["rec", c], ["stream"], ["rec", dd], ["pop", -1], ["rec", e], ["stream"]]}  # F4
     yield {"k": "hist", "ops": [["rec", a], ["stream"], ["del", 0], ["rec", b], ["stream"]]}      # F5
     yield {"k": "hist", "ops": [["rec", {"rid": 100001}], ["rec", {"rid": 100002, "a": 1}], ["sel", [], []], ["sel", [], ["gen"]], ["stream"]]}
+    # repeated selects of one name without a record / pop in between (the caller owns and modifies what it got)
+    yield {"k": "hist", "ops": [["rec", {"rid": 100001, "a": 1}], ["rec", {"rid": 100002}], ["sel", [], ["a"]], ["sel", [], ["a", "rid"]],
+                                ["sel", [], ["a"]], ["sel", [], ["rid"]], ["sel", [], ["rid", "a"]], ["stream"]]}
     # texts: fixed logbooks whose print exercises every part of `__txt__` (chapters and a sub-chapter with and without
     # their own header, explicit header with a missing and an unknown column, widths growing between two prints,
     # None / float / str cells, a chapter named in the header twice)
